@@ -661,6 +661,8 @@ pub fn run_program(lines: &[String], ctx: &mut Ctx) {
             "sdi" => sdi::exec_case(&id, body, ctx),
             "un" => un::exec_case(&id, body, ctx),
             "sun" => sun::exec_case(&id, body, ctx),
+            "fdi" => { crate::exec_wk::fdi::exec_case(&id, body, ctx); true }
+            "fun" => { crate::exec_wk::fun::exec_case(&id, body, ctx); true }
             "wdi" => { crate::exec_wk::wdi::exec_case(&id, body, ctx); true }
             "wsdi" => { crate::exec_wk::wsdi::exec_case(&id, body, ctx); true }
             "wun" => { crate::exec_wk::wun::exec_case(&id, body, ctx); true }
